@@ -18,6 +18,7 @@ import YorkieModel.Driver.ProtoEngine
 import YorkieModel.Driver.FDocEngine
 import YorkieModel.Driver.JsonEngine
 import YorkieModel.Driver.PubSubEngine
+import YorkieModel.Driver.TreeEngine
 open Yorkie.Driver
 
 def engines : List (String × Engine) := [
@@ -41,7 +42,7 @@ def engines : List (String × Engine) := [
   ("presence", PresenceEngine.engine),
   ("proto", ProtoEngine.engine),
   ("fdoc", FDocEngine.engine), ("json", JsonEngine.engine),
-  ("pubsub", PubSubEngine.engine), ("pubsubstress", PubSubEngine.engine)
+  ("pubsub", PubSubEngine.engine), ("pubsubstress", PubSubEngine.engine), ("tree", TreeEngine.engine)
 ]
 
 partial def loop (e : Engine) (h : IO.FS.Stream) (out : IO.FS.Stream) (st : e.State) : IO Unit := do
